@@ -36,7 +36,7 @@ NAMES = {'C': 0, 'D': 2, 'E': 4, 'F': 5, 'G': 7, 'A': 9, 'B': 11}
 
 
 def E(t):
-  return ast.parse(t, mode='eval').body
+  return U.E(t)
 
 
 def name_pc(s):
@@ -155,8 +155,9 @@ def chords(ctx):
       # quality of the encode piece
       q = None
       for (t, pol) in g:
-        if pol and isinstance(t, ast.Compare) and isinstance(t.ops[0], ast.Eq):
-          q = (dotted(t.comparators[0]) or '').split('.')[-1]
+        sd = U.eq_sides(t, lambda a: (dotted(a) or '').split('.')[-1].startswith('CHORD_QUALITY_')) if pol else None
+        if sd:
+          q = dotted(sd[0]).split('.')[-1]
       # decode: TABLE[idx] (+ suffix)
       suf = ''
       tab = d
